@@ -23,6 +23,7 @@ EXTENDS Integers, Sequences, FiniteSets, TLC, Json
 CONSTANTS Templates,    \* subset of template names
           MaxEdits,     \* length of a session
           EditKinds,    \* subset of the edit kinds enabled
+          NoiseSet,     \* subset of Noises admitted (0 = consistent observations)
           KeepNet, KeepEdit, Seed   \* thinning
 
 (* ------------------------------------------------------------- templates *)
@@ -64,6 +65,20 @@ Template(name) ==
         pts |-> <<P("A", 100, 200, 50, "fix"), P("B", 400, 600, 80, "unk"), P("C", 700, 200, 20, "unk"), P("D", 400, 200, 60, "unk")>>,
         mand |-> <<O("vector", "A", "B"), O("vector", "B", "C"), O("vector", "A", "D")>>,
         opt |-> <<O("vector", "C", "A"), O("vector", "D", "C"), O("coords", "B", ""), O("dh", "B", "D"), O("s-distance", "A", "C")>>]
+    [] name = "fstat3d" ->         \* free station: all observations are made FROM the unknown point
+       [dim |-> 3,
+        pts |-> <<P("T1", 3000, 4000, 310, "fix"), P("T2", 3400, 4300, 325, "fix"), P("T3", 3000, 4600, 298, "fix"), P("T4", 2700, 4200, 305, "fix"),
+                  P("S", 3100, 4300, 312, "unk")>>,
+        mand |-> <<O("direction", "S", "T1"), O("direction", "S", "T2"), O("direction", "S", "T3"),
+                   O("s-distance", "S", "T1"), O("s-distance", "S", "T2"), O("z-angle", "S", "T1"), O("z-angle", "S", "T2")>>,
+        opt |-> <<O("direction", "S", "T4"), O("s-distance", "S", "T3"), O("z-angle", "S", "T3"), O("s-distance", "S", "T4"), O("z-angle", "S", "T4")>>]
+    [] name = "fstat2d" ->         \* 2-D free station / resection
+       [dim |-> 2,
+        pts |-> <<P("T1", 3000, 4000, 0, "fix"), P("T2", 3400, 4300, 0, "fix"), P("T3", 3000, 4600, 0, "fix"), P("T4", 2700, 4200, 0, "fix"),
+                  P("S", 3100, 4300, 0, "unk"), P("R", 3200, 4100, 0, "unk")>>,
+        mand |-> <<O("direction", "S", "T1"), O("direction", "S", "T2"), O("direction", "S", "T3"), O("distance", "S", "T1"),
+                   O("direction", "R", "T1"), O("direction", "R", "T2"), O("direction", "R", "T4"), O("direction", "R", "T3")>>,
+        opt |-> <<O("direction", "S", "T4"), O("distance", "S", "T2"), O("direction", "S", "R"), O("direction", "R", "S"), O("distance", "R", "S")>>]
     [] name = "free2d" ->          \* no fixed point: a free network (datum by constrained points)
        [dim |-> 2,
         pts |-> <<P("A", 1000, 1000, 0, "unk"), P("B", 1400, 1300, 0, "unk"), P("C", 1000, 1300, 0, "unk"), P("D", 1300, 1000, 0, "unk")>>,
@@ -88,13 +103,16 @@ AxesAll == {"ne", "sw", "es", "wn", "en", "nw", "se", "ws"}
 
 RECURSIVE SumSet(_)
 SumSet(S) == IF S = {} THEN 0 ELSE LET x == CHOOSE y \in S : TRUE IN x + SumSet(S \ {x})
-HashNet(t, m, o, nz, ax, lh) == Len(t) * 7 + SumSet(m) * 13 + (o % 97) + nz * 5 + Len(ax) + (IF lh THEN 3 ELSE 0)
+AxIdx(ax) == CASE ax = "ne" -> 1 [] ax = "sw" -> 2 [] ax = "es" -> 3 [] ax = "wn" -> 4 [] ax = "en" -> 5 [] ax = "nw" -> 6 [] ax = "se" -> 7 [] OTHER -> 8
+RECURSIVE BitSum(_)
+BitSum(S) == IF S = {} THEN 0 ELSE LET x == CHOOSE y \in S : TRUE IN (IF x = 1 THEN 1 ELSE IF x = 2 THEN 2 ELSE IF x = 3 THEN 4 ELSE IF x = 4 THEN 8 ELSE IF x = 5 THEN 16 ELSE IF x = 6 THEN 32 ELSE 64) + BitSum(S \ {x})
+HashNet(t, m, o, nz, ax, lh) == ((((Len(t) * 31 + BitSum(m)) * 37 + (o % 97)) * 41 + nz) * 43 + AxIdx(ax)) * 2 + (IF lh THEN 1 ELSE 0)
 
 Init == phase = "net" /\ net = [t |-> "none"] /\ edits = <<>>
 
 ChooseNet ==
   /\ phase = "net"
-  /\ \E t \in Templates, ax \in AxesAll, lh \in BOOLEAN, o \in Orients, nz \in Noises :
+  /\ \E t \in Templates, ax \in AxesAll, lh \in BOOLEAN, o \in Orients, nz \in NoiseSet :
        \E m \in OptMasks(Len(Template(t).opt)) :
          /\ (HashNet(t, m, o, nz, ax, lh) + Seed) % KeepNet = 0
          /\ net' = [t |-> t, opt |-> m, axes |-> ax, lefthanded |-> lh, orient |-> o, noise |-> nz]
@@ -155,8 +173,8 @@ Law(e) ==
 Applicable(e) ==
   /\ (e.k = "ChangeDatum" => net.t \in {"free2d"})
   /\ (e.k = "AddConsistentObs" => net.noise = 0)
-  /\ (e.k \in {"OmitApprox", "PerturbApprox"} => net.noise = 0)
-  /\ (e.k = "AttachHeights" => net.t = "polar3d" /\ net.noise = 0)
+  /\ (e.k \in {"OmitApprox", "PerturbApprox"} => net.noise = 0 /\ net.t # "free2d")    \* the datum of a free network is defined by its approximate coordinates
+  /\ (e.k = "AttachHeights" => net.t \in {"polar3d", "fstat3d"} /\ net.noise = 0)
   /\ (e.k = "RotateCircle" => net.t # "lev1d" /\ net.t # "vec3d")
   /\ (e.k = "MirrorAxes" => net.t # "lev1d")
   /\ (e.k = "SwitchUnits" => net.t # "lev1d" /\ net.t # "vec3d")
@@ -168,7 +186,7 @@ DoEdit ==
   /\ phase = "edit" /\ Len(edits) < MaxEdits
   /\ \E kind \in EditKinds : \E e \in EditsOf(kind) :
        /\ Applicable(e)
-       /\ (HashEdit(e) + Len(edits) + Seed + HashNet(net.t, net.opt, net.orient, net.noise, net.axes, net.lefthanded)) % KeepEdit = 0
+       /\ ((HashEdit(e) * 7) + Len(edits) + Seed + (HashNet(net.t, net.opt, net.orient, net.noise, net.axes, net.lefthanded) % 1009)) % KeepEdit = 0
        /\ edits' = Append(edits, [e |-> e, law |-> Law(e)])
   /\ UNCHANGED <<phase, net>>
 
